@@ -4,7 +4,7 @@ import vlib, docgen, crashgen, gen_lr
 
 KMAP = {'select': 'select', 'guard': 'guard', 'sync': 'sync', 'update': 'assign', 'prob': 'prob'}
 FAULTS = ['forall (q:int[0,3]) +', 'exists (q : int[0,1]) q == ', 'sum (k : int[0,2]) (', 'zz == 1', 'g0 + ', '(g0 == 1', 'g0 == 1)', 'g0 == true + c', '1 +* 2', 'f(', 'g0[', 'x <= ', '{', ')', 'g0 == 1 ; g1', 'forall (q:int[0,3]) forall (r:int[0,1]) q +',
-          'g0 ? 1 :', 'a . b .', '"str', 'g0 = = 1', '']
+          'g0 ? 1 :', 'a . b .', '"str', 'g0 = = 1', '', 'g0 == 1 /* never closed', '/* only a comment', 'g0 /* closed */ ==', '1 // trailing', 'g0 == 1 /* x */ /* y']
 
 
 def label_sites(M):
@@ -83,7 +83,7 @@ def check(run):
             orig = docgen.ltext(M, S['key'][0], S['key'][1])
             if r < 0.45: bad = rng.choice(FAULTS)
             elif r < 0.9: bad = crashgen.mutate_tokens(rng, orig, n=1)
-            else: bad = orig + ' ' + rng.choice(FAULTS)
+            else: bad = orig + ' ' + rng.choice(FAULTS + ['/* never closed', '/* open\n comment'])
             if bad == orig:
                 continue
             saved = dict(M.text)
